@@ -709,6 +709,10 @@ fn execute_differential(plan: &Plan, choices: Option<Vec<u32>>, record: bool, pr
         let out = rt::run(cfg, ch, record, move || run_plan(&p2));
         (take_log(), out)
     };
+    // every third pair compares Cache with AsyncCache on the single-task executor
+    if plan.seed % 3 == 0 {
+        p_async.cfg.flavor = Flavor::AsyncLocal;
+    }
     let (ev_s, out_s) = run(&p_sync, c1, 0);
     let (ev_a, out_a) = run(&p_async, c2, 0xa5);
     let hs = Hist::new(&p_sync, &ev_s);
@@ -722,6 +726,7 @@ fn execute_differential(plan: &Plan, choices: Option<Vec<u32>>, record: bool, pr
     for (k, v) in d.probes {
         *res.probes.entry(k.to_string()).or_default() += v;
     }
+    *res.probes.entry(if p_async.cfg.flavor == Flavor::AsyncLocal { "pair_sync_vs_single_task_executor" } else { "pair_sync_vs_task_per_future" }.to_string()).or_default() += 1;
     res.violations.retain(|v| props.iter().any(|p| *p == v.prop));
     let mut lh = 0xcbf29ce484222325u64;
     for e in ev_s.iter().chain(ev_a.iter()) {
